@@ -23,6 +23,7 @@ def run(prog: Program, rep: Report):
     r3_buffer(prog, rep, csvr)
     r4_one_line(prog, rep, csvr, jsonr)
     r5_record_layer(prog, rep)
+    r6_class_keyed(prog, rep, [record, jsonr, csvr] + [c for c in prog.classes.values() if c.mod.name == FILES_MOD and csvr in (c.mro or []) and c is not csvr])
 
 
 def _csv_calls(prog, cls: Cls):
@@ -258,6 +259,28 @@ def r4_one_line(prog, rep: Report, csvr: Cls, jsonr: Cls):
     ok = len(rd) == 1 and src(rd[0].args[0]) == f"[{s}]"
     rep.check("C13.R4", load, "csv-load-one-line", ok, f"csv.reader([{s}]) parses exactly the given line",
               "the CSV loader does not parse exactly the one given line", scenario="load() reads a different text than save() produced")
+    # on every path the row comes from the csv reader: a hand-written split of the line is not the inverse of the csv writer
+    # (quoting aside, csv keeps trailing blanks and empty trailing fields that str.split()/strip() variants drop)
+    def has_reader(e) -> bool:
+        return any(isinstance(x, ast.Call) and ext_name(prog, load, x) == "csv.reader" for x in ast.walk(e))
+
+    def arms(e):
+        if isinstance(e, ast.IfExp):
+            return arms(e.body) + arms(e.orelse)
+        return [e]
+    row_vars = {t.id for n in walk_own(load.node) if isinstance(n, ast.Assign) and has_reader(n.value)
+                for t in n.targets if isinstance(t, ast.Name)}
+    bypass = []
+    for n in walk_own(load.node):
+        if isinstance(n, ast.Assign) and any(isinstance(t, ast.Name) and t.id in row_vars for t in n.targets):
+            for a in arms(n.value):
+                if not has_reader(a):
+                    bypass.append((n.lineno, src(a)))
+    if rd:
+        rep.check("C13.R4", load, "csv-load-always-reader", not bypass, "the parsed row comes from csv.reader on every path",
+                  f"on some path the row is produced by `{bypass[0][1] if bypass else ''}` instead of csv.reader: not the inverse of "
+                  "the csv writer", scenario="a TSV record whose last string field ends in blanks (or is empty) loses them on load",
+                  line=bypass[0][0] if bypass else None)
     jl = prog.method(jsonr, "load")
     rep.fn(jl)
     lo = [c for c in calls_in(jl.node) if ext_name(prog, jl, c) == "json.loads"]
@@ -315,3 +338,45 @@ def r5_record_layer(prog, rep: Report):
               and src(st.value) == init.params[2]]
     rep.check("C13.R5", init, "record-class", len(stores) == 1, "record_class parameter stored", "record_class is not stored from the constructor parameter",
               scenario="records are loaded with another class")
+
+
+# ---------------------------------------------------------------------------------------------- R6
+def r6_class_keyed(prog, rep: Report, classes: List[Cls]):
+    """record classes are meant to be subclassed; whatever a class method remembers about "the class" must be remembered per class"""
+    rep.rule("C13.R6", "what the record classes cache about a class is keyed by that class: a class method never stores into an attribute "
+             "of cls (`cls.x = ...` is inherited by every subclass: a derived record class would be served its parent's field names, "
+             "types or writer), and every subscript of a class-level dict cache uses cls as the key", floor=sum(1 for c in classes if c.methods))
+    for c in classes:
+        anchor = None
+        problems = []
+        n_sites = 0
+        for f in c.methods.values():
+            anchor = anchor or f
+            owner = f.params[0] if (f.is_classmethod and f.params) else None
+            for n in ast.walk(f.node):
+                if isinstance(n, ast.Attribute) and isinstance(n.ctx, (ast.Store, ast.Del)) and isinstance(n.value, ast.Name):
+                    via_cls = (owner is not None and n.value.id == owner) or n.value.id in {k.name for k in c.repo_mro()}
+                    if via_cls:
+                        problems.append((n.lineno, f"{f.name} stores into `{n.value.id}.{n.attr}`: the attribute is found through the MRO, so a "
+                                                   "subclass that is used after its parent reads the parent's value"))
+                if isinstance(n, ast.Subscript) and isinstance(n.value, ast.Attribute) and isinstance(n.value.value, ast.Name) \
+                        and owner is not None and n.value.value.id == owner:
+                    # cls.<cache>[key]
+                    attr = n.value.attr
+                    is_cache = any(isinstance(st, (ast.Assign, ast.AnnAssign)) and isinstance(getattr(st, "value", None), (ast.Dict,))
+                                   and any(isinstance(t, ast.Name) and t.id == attr for t in (st.targets if isinstance(st, ast.Assign) else [st.target]))
+                                   for k in c.repo_mro() if not k.is_external for st in k.node.body)
+                    if is_cache:
+                        n_sites += 1
+                        if not (isinstance(n.slice, ast.Name) and n.slice.id == owner):
+                            problems.append((n.lineno, f"`{src(n)}` in {f.name}: the class-level cache is not subscripted with {owner}"))
+        if anchor is None:
+            continue
+        rep.fn(anchor)
+        if problems:
+            ln, why = sorted(set(problems))[0]
+            rep.viol("C13.R6", anchor, f"class-keyed:{c.name}", why,
+                     scenario="class Point3(Point) adds a field; Point is saved first, then Point3: Point3's load drops the added field "
+                              "(JSON) or its save raises from DictWriter (CSV)", line=ln)
+        else:
+            rep.ok("C13.R6", anchor, f"class-keyed:{c.name}", f"{n_sites} cache subscripts, all keyed by the class; no store into an attribute of cls")
